@@ -285,9 +285,14 @@ def check_message(run, mtype, cls, p, hdr):
     if type(m2) is not cls or message_params(m2) != {k: (list(v) if isinstance(v, list) else v) for k, v in p.items()}:
         run.violation("message-roundtrip-differs/" + cls.__name__, dict(wit, decoded=repr(message_params(m2))[:200]))
         return
-    # truncated bodies: DecodingError or a (shorter) message, nothing else
+    # truncated bodies: a DecodingError, unless what is left is itself a well-formed message of the type (a shorter network
+    # list, the parameterless Who-Is-Router) - then exactly that message; never another exception, never a misreading
     for cut in range(len(body)):
         o = W.npci_build(to_ref(dict(hdr, net_message=mtype, payload=body[:cut])))
+        try:
+            legal = W.nlm_parse(mtype, body[:cut])
+        except W.NLMalformed:
+            legal = None
         try:
             n = lib_decode(o)
             m3 = N.npdu_types[mtype]()
@@ -295,8 +300,19 @@ def check_message(run, mtype, cls, p, hdr):
             run.count("truncated_bodies_accepted")
         except DecodingError:
             run.count("truncated_bodies_refused")
+            if legal is not None:
+                run.violation("well-formed-shorter-message-refused/" + cls.__name__, dict(wit, cut=cut, octets=o[:40]))
+                return
+            continue
         except Exception as err:
             run.violation("truncated-message-raised-other/%s/%s" % (cls.__name__, type(err).__name__), dict(wit, cut=cut))
+            return
+        got3 = message_params(m3)
+        if legal is None:
+            run.violation("truncated-message-misread/" + cls.__name__, dict(wit, cut=cut, octets=o[:40], read_as=repr(got3)[:120]))
+            return
+        if got3 != {k: ([tuple(x) if isinstance(x, (list, tuple)) else x for x in v] if isinstance(v, list) else v) for k, v in legal.items()}:
+            run.violation("shorter-message-read-differently/" + cls.__name__, dict(wit, cut=cut, read_as=repr(got3)[:120], reference=repr(legal)[:120]))
             return
 
 
